@@ -70,6 +70,11 @@ def gen_replacement(rng, els, P, mode=None):
     if rel and rng.random() < 0.2:
         out["extra_atom_labels"] = ["_atom_site_x_note"]
         out["extra_atom_fields"] = [["n%d" % i] for i in range(len(rel))]
+    if rel and rng.random() < 0.3:
+        # a parameterised pattern: force-field type labels that differ from the element symbols (the search pattern, built from
+        # elements, labels the same atoms by element - "common to both patterns" is a matter of element and place, not of label)
+        suffix = {e: rng.choice(["_3", "_R", "1", "_x2", "_" + e.lower()]) for e in set(rel)}
+        out["labels"] = [e + suffix[e] + ("b" if rng.random() < 0.2 else "") for e in rel]
     return out
 
 
@@ -181,6 +186,11 @@ def build_replacement(rep):
     if len(rep["elements"]) == 0:
         return Atoms()
     kw = dict(elements=list(rep["elements"]), positions=np.array(rep["positions"], float).reshape(-1, 3))
+    if rep.get("labels"):
+        from mofun.atomic_masses import ATOMIC_MASSES
+        uniq = list(dict.fromkeys(zip(rep["elements"], rep["labels"])))
+        kw = dict(atom_types=[uniq.index((e, l)) for e, l in zip(rep["elements"], rep["labels"])], atom_type_elements=[e for e, l in uniq],
+                  atom_type_labels=[l for e, l in uniq], atom_type_masses=[ATOMIC_MASSES[e] for e, l in uniq], positions=kw["positions"])
     if rep.get("charges") is not None:
         kw["charges"] = list(rep["charges"])
     if rep.get("groups") is not None:
